@@ -296,6 +296,11 @@ def _opt_combinator(vm, m, n, rv, args):
         return vm.call_closure(m, args[1], [rv.f[0]])
     raise Unmodelled('Option combinator ' + n)
 
+def hm_new(vm, pairs):
+    vm.hm_counter = getattr(vm, 'hm_counter', 0) + 1
+    return Struct((Seq(pairs), vm.hm_counter + getattr(vm, 'hm_parity', 0)), 'HashMap')
+def hm_salt(v): return v.f[1] if len(v.f) > 1 else 0
+def hm_order(v, n): return list(range(n)) if hm_salt(v) % 2 == 0 else list(range(n - 1, -1, -1))
 def _hm_pairs(vm, m, r):
     v = deref_val(vm, m, r)
     if not (isinstance(v, Struct) and v.ty == 'HashMap'): raise VMError('not a HashMap: %r' % (v,))
@@ -305,18 +310,20 @@ def _key(vm, m, k):
     if not isinstance(k, Str): raise Unmodelled('non-string HashMap key %r' % (k,))
     return k.s
 def _hashmap(vm, m, c, args):
-    """std::collections::HashMap with string keys: Struct((Seq of (key, value) pairs,), 'HashMap'), iteration in insertion order"""
+    """std::collections::HashMap with string keys: Struct((Seq of (key, value) pairs, salt), 'HashMap').  The iteration order of a HashMap is
+    unspecified and differs between maps (per-map hasher seeds): the model iterates maps with an even salt in insertion order and maps with an
+    odd salt in reverse insertion order; consecutive maps get different salts and vm.hm_parity flips all of them (checks run both parities)."""
     mm = re.match(r'^HashMap::<.*?>::(\w+)(::<.*>)?$', c)
     if mm:
         n = mm.group(1)
-        if n == 'new' or n == 'with_capacity': return ret(m, Struct((Seq(()),), 'HashMap'))
+        if n == 'new' or n == 'with_capacity': return ret(m, hm_new(vm, ()))
         r = args[0]
         if n == 'insert':
             pairs = _hm_pairs(vm, m, r); k = _key(vm, m, args[1]); old = NONE()
             for i, p in enumerate(pairs):
                 if p.f[0].s == k: old = SOME(p.f[1]); pairs[i] = Struct((Str(k), args[2])); break
             else: pairs.append(Struct((Str(k), args[2])))
-            vm.write_at(m, r.cell, list(r.path), Struct((Seq(pairs),), 'HashMap')); return ret(m, old)
+            vm.write_at(m, r.cell, list(r.path), Struct((Seq(pairs), hm_salt(deref_val(vm, m, r))), 'HashMap')); return ret(m, old)
         if n in ('get_mut', 'get'):
             pairs = _hm_pairs(vm, m, r); k = _key(vm, m, args[1])
             while isinstance(vm.read_at(m, r.cell, r.path), Ref): r = vm.read_at(m, r.cell, r.path)
@@ -326,6 +333,15 @@ def _hashmap(vm, m, c, args):
         if n == 'contains_key':
             return ret(m, any(p.f[0].s == _key(vm, m, args[1]) for p in _hm_pairs(vm, m, r)))
         if n == 'len': return ret(m, len(_hm_pairs(vm, m, r)))
+        if n in ('values', 'keys', 'iter', 'values_mut', 'iter_mut'):
+            from .vm import Iter
+            pairs = _hm_pairs(vm, m, r)
+            while isinstance(vm.read_at(m, r.cell, r.path), Ref): r = vm.read_at(m, r.cell, r.path)
+            idx = hm_order(deref_val(vm, m, r), len(pairs))
+            kref = lambda i: Ref(r.cell, r.path + (('f', 0), ('i', i), ('f', 0))); vref = lambda i: Ref(r.cell, r.path + (('f', 0), ('i', i), ('f', 1)))
+            if n in ('values', 'values_mut'): return ret(m, Iter([vref(i) for i in idx]))
+            if n == 'keys': return ret(m, Iter([kref(i) for i in idx]))
+            return ret(m, Iter([Struct((kref(i), vref(i))) for i in idx]))
         raise Unmodelled('HashMap method ' + c)
     if re.match(r'^<HashMap<.*> as (std::ops::)?Index<.*>>::index$', c):
         r = args[0]; pairs = _hm_pairs(vm, m, r); k = _key(vm, m, args[1])
@@ -336,7 +352,7 @@ def _hashmap(vm, m, c, args):
     if re.match(r'^<HashMap<.*> as Clone>::clone$', c): return ret(m, deref_val(vm, m, args[0]))
     if re.match(r'^<HashMap<.*> as IntoIterator>::into_iter$', c):
         from .vm import Iter
-        return ret(m, Iter(_hm_pairs(vm, m, args[0])))
+        pairs = _hm_pairs(vm, m, args[0]); return ret(m, Iter([pairs[i] for i in hm_order(deref_val(vm, m, args[0]), len(pairs))]))
     return NotImplemented
 
 def _vec(vm, m, c, args):
